@@ -131,7 +131,10 @@ def h2_history(draw: Any) -> Dict[str, Any]:
     return {"proto": "h2", "T": T, "steps": steps, "sched": draw(st.integers(0, 999)),
             # how the connection became HTTP/2: TLS + ALPN, cleartext prior knowledge (the
             # preface arrives on what starts as an HTTP/1 connection) or the h2c upgrade
-            "opening": draw(st.sampled_from(["alpn", "alpn", "prior", "h2c", "h2c_unknown_host"])),
+            "opening": draw(st.sampled_from(["alpn", "alpn", "alpn", "prior", "prior", "h2c", "h2c",
+                                             "h2c_unknown_host", "h2c_unknown_host",
+                                             "h2c_bad_settings"])),
+            "bad_settings": draw(st.sampled_from(["!!!", "AAMAAABk", "AAMAAABkAA", "AAQ"])),
             "reset_how": draw(st.sampled_from(["reset", "reset", "unreach", "netdown", "timedout", "aborted"]))}
 
 
@@ -408,6 +411,25 @@ async def run_h2(env: Any, case: Dict[str, Any], app: Any) -> Dict[str, Any]:
     opening = case.get("opening", "alpn")
     conn = env.connect(alpn="h2", tls=True) if opening == "alpn" else env.connect()
     client = H2Client(conn)
+    if opening == "h2c_bad_settings":
+        # an upgrade offer whose HTTP2-Settings is no settings payload (not base64, a truncated
+        # setting, a value out of range): whatever the server makes of it - refuse and close,
+        # or serve the request as HTTP/1.1 - nothing is in progress afterwards, so by T the
+        # connection is closed
+        app.programs["/up"] = [["recv_all"], ["respond", 200, [["content-length", "2"]], ["ok"]]]
+        conn.send(b"GET /up HTTP/1.1\r\nHost: x\r\nConnection: Upgrade, HTTP2-Settings\r\n"
+                  b"Upgrade: h2c\r\nHTTP2-Settings: " + case.get("bad_settings", "!!!").encode()
+                  + b"\r\n\r\n")
+        await env.settle0()
+        await env.sleep(T + 4 * EPS)
+        await env.settle0()
+        if not conn.server_gone:
+            raise Violation("not_closed_after_failed_upgrade", f"h2c offer with HTTP2-Settings "
+                            f"{case.get('bad_settings')!r}: answered {bytes(conn.received()[:60])!r}, "
+                            f"still open at t={env.now()} (T={T})", backend=env.backend)
+        await env.settle(50 * T + 50)
+        return {"conn": conn, "lost_at": None, "nontrivial": True,
+                "timer": Timer(env, conn, T, env.backend)}
     if opening in ("h2c", "h2c_unknown_host"):
         # (with an unknown host the upgraded request is answered 404 by the server itself)
         host = b"x" if opening == "h2c" else b"unknown.invalid"
@@ -714,6 +736,8 @@ def run_case(case: Dict[str, Any]) -> CaseInfo:
         if obs.value.get("adjusted"):
             adjusted.add(obs.value["adjusted"])
     classes = ["proto=" + case["proto"], f"T={case['T']}"] + sorted(adjusted)
+    if case.get("opening"):
+        classes.append("opening=" + case["opening"])
     if case.get("ping_factor") is not None:
         classes.append(f"ping_interval={case['ping_factor']}T")
     for s in case.get("steps", []):
